@@ -109,5 +109,7 @@ def main(run: core.Run) -> None:
         run.bounds.update({'depth1': 'docs <= 3 lines, full argument menu', 'depth2': 'docs <= 2 lines'})
         items = docexp.corpus(docs.L_EDIT, 3, depth=1)
         d2 = docexp.corpus(docs.L_EDIT, 2, depth=2)
+    items += docexp.class_cases(1, level=('basic' if tier == 'quick' else 'full'))
+    run.bounds['class_corpus'] = 'one minimal and one full document per directive class (38 documents), depth 1'
     docexp.bfs(run, ORACLE, items, 'depth-1 corpus')
     docexp.bfs(run, ORACLE, d2, 'depth-2 corpus')
